@@ -17,6 +17,7 @@ type c04Case struct {
 	L    int      `json:"L"`
 	Locs []string `json:"locations"`
 	Ns   []int    `json:"rotations"` // applied in order (1 = single rotation, 2 = composition)
+	Keys []string `json:"keys,omitempty"`
 }
 
 // ambCrosses reports whether an ambiguous span of loc crosses the origin after rotating by n.
@@ -52,13 +53,14 @@ func c04Eval(c c04Case) (ok bool, sig, detail string) {
 	L := c.L
 	cur := locdom.Seq(L)
 	curLocs := locs
+	keys := c03Keys(c03Case{Locs: c.Locs, Keys: c.Keys})
 	// Every rotation is one transition: it is judged against the model applied
 	// to the state it started from (the previously *observed* locations), so a
 	// later step is never blamed for an earlier one; the model's rotation is
 	// additive by construction, so step-wise correctness is the additive law.
 	for step, n := range c.Ns {
 		var out gts.Sequence
-		if p, msg := engine.Safely(func() { out = gts.Rotate(mkSeq(cur, curLocs, "h"), n) }); p {
+		if p, msg := engine.Safely(func() { out = gts.Rotate(mkSeqKeys(cur, curLocs, keys), n) }); p {
 			return false, "panic", fmt.Sprintf("step %d: panic: %s", step, msg)
 		}
 		want := make([]byte, L)
@@ -74,9 +76,9 @@ func c04Eval(c c04Case) (ok bool, sig, detail string) {
 		}
 		next := make([]gts.Location, len(curLocs))
 		for k, loc := range curLocs {
-			f, cnt := findOnce(ff, fmt.Sprintf("h%d", k))
+			f, cnt := findOnce(ff, keys[k])
 			if cnt != 1 {
-				return false, "feature-once", fmt.Sprintf("feature h%d present %d times", k, cnt)
+				return false, "feature-once", fmt.Sprintf("feature %s present %d times", keys[k], cnt)
 			}
 			next[k] = f.Loc
 			if ambCrosses(loc, n, L) {
@@ -184,6 +186,11 @@ func init() {
 						}
 					}
 					eval(c, nontriv)
+					if len(ns) == 1 && L <= 4 {
+						c2 := c
+						c2.Keys = []string{"source"}
+						eval(c2, nontriv)
+					}
 					if idx%70001 == 0 && r.WantSample() {
 						r.Sample(c)
 					}
